@@ -43,6 +43,7 @@ EXHAUSTIVE = {"quick": "all 1 225 segments (incl. zero-length) between two point
                        "(request + 4 neighbourhood radii) and as a segment query",
               "thorough": "the same 1 225 segments at resolution (1,1) margin 0, resolution (1.5,1) margin 0 and resolution (1,1) "
                           "margin 0.5 (grid lines on half-integers), each queried at all 49 lattice points and as a segment query"}
+SOFT_MONITORS = ['cellsCrossSegment.covers']      # contracts on private helpers: diagnostics, see vt/runner.py
 CASE_LIMIT_S = 60.0
 
 EPS = 1e-9                      # shrink / widen / distance slack, ground units
